@@ -1,4 +1,4 @@
-from typing import TypeVar
+from typing import TypeVar, cast
 
 from reactivex import Observable, abc
 from reactivex.internal import curry_flip
@@ -38,13 +38,15 @@ def skip_last_(source: Observable[_T], count: int) -> Observable[_T]:
 
         def on_next(value: _T) -> None:
             front = None
+            has_front = False
             with source.lock:
                 q.append(value)
                 if len(q) > count:
                     front = q.pop(0)
+                    has_front = True
 
-            if front is not None:
-                observer.on_next(front)
+            if has_front:
+                observer.on_next(cast(_T, front))
 
         return source.subscribe(
             on_next, observer.on_error, observer.on_completed, scheduler=scheduler
